@@ -62,6 +62,30 @@ notes={
  'C16-H':'+ U+007F written raw inside quotes (JSON allows it unescaped)',
  'C19-G':'+ the history\'s own []Config passed as configs[k:]... with functions registered on its elements between calls',
  'C19-H':'+ Configs derived by copying a Config value and calling a setter on the copy',
+ 'C01-J':'+ the document object is given new content in place and evaluated again through the same parsed function (C01, C10, C05 transplant operation)',
+ 'C03-J':'+ cases reach the library through Retrieve as well as Parse; catalogue functions fnest / gnest run a JSONPath themselves; the Go runtime\'s own deadlock report counts as confirmation of a hang',
+ 'C04-I':'+ a function name no Config registers appended to the path (the document must stay intact whatever the library makes of it); also rejected-by-definition in the reduced grammar of C02 / C17',
+ 'C04-J':'+ a result slice handed back to the library as the source document of further retrievals',
+ 'C06-I':'+ Config objects shared by all goroutines of a scenario (functions; a copy of it with accessor mode; accessor mode only), accessor-ness of every result checked against the Config of that very call, scenarios focused on one to three paths',
+ 'C06-J':'+ churn scenarios (ten times the calls, shared parsed functions only, short documents)',
+ 'C07-I':'+ the order in which user functions are called is compared across repetitions and physical copies; functions inside filters applied to objects',
+ 'C07-J':'+ the sequence is also taken in accessor mode (Get() of every accessor against the expected sequence)',
+ 'C08-I':'+ documents with non-JSON values in C08, among them pointers to / Accessors around / raw JSON text of a sub-document',
+ 'C09-I':'+ function-free sub-expressions evaluated through Retrieve with no Config (one case in four); sibling atoms that differ by one blank inside a string literal, name or regular expression',
+ 'C09-J':'+ TestC09_SharedFilter: one parsed filter shared by goroutines on containers with different verdict patterns (race build)',
+ 'C10-I':'+ $.x and $.y swapped in place (member list reversed) and the same parsed function evaluated again',
+ 'C12-I':'+ the document root handed over inside an Accessor / behind a pointer / as raw JSON text; non-JSON values inside documents in C12',
+ 'C12-J':'+ (same generator) and replay files that carry the 64 cases the process ran before the first failing one',
+ 'C13-I':'+ non-JSON documents (typed maps and slices, pointers, Accessors) in C13 and accessor-mode evaluation in C20',
+ 'C14-I':'+ catalogue functions fnest / gnest that return the inner retrieval\'s own error value',
+ 'C14-J':'+ evaluation through Retrieve with a Config (closures of one function literal per name)',
+ 'C15-J':'+ catalogue functions fnest / gnest that return the inner retrieval\'s own error value',
+ 'C16-I':'+ TestC16_Collide: pairs of paths with equal 32-bit FNV-1a / FNV-1 / Adler-32 hashes found by a birthday search',
+ 'C17-J':'+ every string is parsed twice in a row and must get the same verdict',
+ 'C18-I':'+ keys with a backslash directly before a quote character in the shared key alphabet',
+ 'C18-J':'+ every case may be preceded by a twin path that differs by one character (a blank dropped), through the same entry point, with no Config when the path has no function',
+ 'C19-J':'+ TestC19_LongRun: thousands of distinct config-less paths per process, remembered cases evaluated again after 70 ... 4200 further distinct paths; the replay carries the whole history',
+ 'C20-J':'+ Accessor values (zero and live) among the non-JSON values',
  'C20-G':'+ defined types over float64 / string / bool and json.RawMessage among the opaque values',
 }
 rows=[]
